@@ -40,7 +40,8 @@ Inductive tstmt : Type :=
 | TSelf (x : name)                            (* x = x *)
 | TPerm (xs ys : list name)                   (* x1, .., xn = y1, .., yn *)
 | TCallLen (x p y : name) (sg : bool) (k : Z). (* r = h(x); mon.write(r)   with   def h(P): return P[len(Y) + k]  (sg)  /
-                                                 return P[k - len(Y)],  defined right in front of `while True:`;  the parameter P
+                                                 return P[k - len(Y)],  defined right in front of `while True:` (one function per
+                                                 (p, y, sg, k), possibly called at several places);  the parameter P
                                                  carries the list name p (it may SHADOW a global list of that name), Y is the
                                                  parameter itself (y = p) or the global list y *)
 
@@ -94,11 +95,19 @@ Definition track1 (gated : bool) (t : tenv) (s : tstmt) : tenv :=
   end.
 
 (* ------------------------------------------------------------------ function scope *)
-(* _parse_function (parser.py 1640-1675): the body of a `def` is parsed ONCE, at the `def`, in a context that starts as a
-   copy of the enclosing constant environment in which every parameter name is OVERWRITTEN by a run-time placeholder
-   (`child_ctx["vars"][arg.arg] = _ExprStr(arg.arg)`): a parameter shadows a global of the same name, a global that is not
-   shadowed keeps the copy it has at the `def`. *)
+(* _parse_function (parser.py 1585-1675): the body of a function is parsed in a context that starts as a copy of the
+   constant environment of the place where it is parsed, in which every parameter name is OVERWRITTEN by a run-time
+   placeholder (`child_ctx["vars"][arg.arg] = _ExprStr(arg.arg)`): a parameter shadows a global of the same name, a global
+   that is not shadowed keeps its copy.  The variant for list arguments is parsed ON DEMAND (_ensure_function_variant,
+   parser.py 927-960): at the FIRST call in source order whose argument types ask for it, with the environment [td] of that
+   call site, and never again. *)
 Definition fn_env (td : tenv) (params : list name) : tenv := t_untrack params td.
+
+Definition same_fn (a b : tstmt) : bool :=
+  match a, b with
+  | TCallLen _ p y sg k, TCallLen _ p' y' sg' k' => Z.eqb p p' && Z.eqb y y' && Bool.eqb sg sg' && Z.eqb k k'
+  | _, _ => false
+  end.
 
 (* ------------------------------------------------------------------ programs *)
 (* a statement with its gate (`if c > t:` in front of it; None = unconditional) *)
@@ -108,6 +117,13 @@ Definition is_gated (g : option Z) : bool := match g with Some _ => true | None 
 Definition taken (g : option Z) (c : Z) : bool := match g with Some t => (t <? c)%Z | None => true end.
 
 Definition len_index (sg : bool) (n k : Z) : Z := if sg then (n + k)%Z else (k - n)%Z.
+
+(* the environment the function called by [s] was parsed in: the copies in front of its first call in the block *)
+Fixpoint first_env (t : tenv) (ss : list gstmt) (s : tstmt) : tenv :=
+  match ss with
+  | [] => t
+  | (s1, g) :: r => if same_fn s1 s then t else first_env (track1 (is_gated g) t s1) r s
+  end.
 
 (* the source statement of DListProg once the run-time pieces are known: [leny] = the value of len(y),
    [c] = the run-time scalar of this pass *)
@@ -168,11 +184,11 @@ Definition f_len (t : tenv) (st : fstate) (y : name) : Z :=
   end.
 
 (* the value len() has in the statement: folded against the copies of the enclosing block, resp. - inside the function
-   body - against the function's own environment (the copies as they were at the `def`, parameters unfolded) *)
-Definition s_len (td t : tenv) (st : fstate) (s : tstmt) : Z :=
+   body - against the function's own environment (the copies in front of the function's first call, parameters unfolded) *)
+Definition s_len (fe : tstmt -> tenv) (t : tenv) (st : fstate) (s : tstmt) : Z :=
   match s with
   | TCallLen x p y _ _ =>
-      match t_cur (fn_env td [p]) y with
+      match t_cur (fn_env (fe s) [p]) y with
       | Some cur => Z.of_nat (length cur)
       | None => Z.of_nat (list_len (f_lookup st (if Z.eqb y p then x else y)))
       end
@@ -180,8 +196,8 @@ Definition s_len (td t : tenv) (st : fstate) (s : tstmt) : Z :=
   end.
 
 (* executing a block: [t], [decl] = the parser's knowledge in front of each statement (the same in every pass);
-   [td] = the copies at the place of the function definitions (end of the statements in front of the main loop) *)
-Fixpoint tf_block (in_loop : bool) (c : Z) (td t : tenv) (decl : list name) (st : fstate) (ss : list gstmt)
+   [fe] = for a call, the copies in front of the first call of the same function *)
+Fixpoint tf_block (in_loop : bool) (c : Z) (fe : tstmt -> tenv) (t : tenv) (decl : list name) (st : fstate) (ss : list gstmt)
   : res (fstate * list Z) :=
   match ss with
   | [] => Safe (st, [])
@@ -189,15 +205,15 @@ Fixpoint tf_block (in_loop : bool) (c : Z) (td t : tenv) (decl : list name) (st 
       let t1 := track1 (is_gated g) t s in
       let d1 := t_decl in_loop decl s in
       if taken g c then
-        do x <- f_exec in_loop st (t_lstmt in_loop decl s (s_len td t st s) c);
+        do x <- f_exec in_loop st (t_lstmt in_loop decl s (s_len fe t st s) c);
         let '(st1, o1) := x in
-        do y <- tf_block in_loop c td t1 d1 st1 r; let '(st2, o2) := y in
+        do y <- tf_block in_loop c fe t1 d1 st1 r; let '(st2, o2) := y in
         Safe (st2, o1 ++ o2)
-      else tf_block in_loop c td t1 d1 st r
+      else tf_block in_loop c fe t1 d1 st r
   end.
 
 Definition tf_pass (c : Z) (t : tenv) (decl : list name) (body : list gstmt) (st : fstate) : res (fstate * list Z) :=
-  do a <- tf_block true c t t decl st body; let '(st1, o) := a in
+  do a <- tf_block true c (first_env t body) t decl st body; let '(st1, o) := a in
   Safe (mkf (f_heap st1) (f_glob st1) [], o).
 
 Fixpoint tf_passes (t : tenv) (decl : list name) (body : list gstmt) (st : fstate) (cs : list Z) : res fstate :=
@@ -209,7 +225,7 @@ Fixpoint tf_passes (t : tenv) (decl : list name) (body : list gstmt) (st : fstat
 (* setup() then one pass of loop() per run-time value *)
 Definition run_fw_t (setup : list tstmt) (body : list gstmt) (cs : list Z) : res fstate :=
   let '(t0, d0) := track false [] [] (ungated setup) in
-  do a <- tf_block false 0 [] [] [] f_init (ungated setup); tf_passes t0 d0 body (fst a) cs.
+  do a <- tf_block false 0 (fun _ => []) [] [] f_init (ungated setup); tf_passes t0 d0 body (fst a) cs.
 
 (* ------------------------------------------------------------------ CPython: len() of the list as it is *)
 Definition p_len (pst : pstate) (y : name) : pres Z :=
@@ -273,7 +289,8 @@ Definition remove_hits (t : tenv) (s : tstmt) : bool :=
 
 Definition mem (x : name) (l : list name) : bool := existsb (Z.eqb x) l.
 
-(* a global list read by len() inside a function body: the length folded at the `def` is the length of the copy at the call *)
+(* a global list read by len() inside a function body: the length folded at the function's first call is the length of the
+   copy at this call *)
 Definition fold_agrees (td t : tenv) (y : name) : bool :=
   match t_cur td y with
   | None => true
@@ -282,13 +299,13 @@ Definition fold_agrees (td t : tenv) (y : name) : bool :=
 
 Definition is_call_len (s : tstmt) : bool := match s with TCallLen _ _ _ _ _ => true | _ => false end.
 
-Definition t_use_ok (td : tenv) (decl : list name) (t : tenv) (sg : gstmt) : bool :=
+Definition t_use_ok (fe : tstmt -> tenv) (decl : list name) (t : tenv) (sg : gstmt) : bool :=
   let '(s, g) := sg in
   negb (is_decl s) && use_ok decl (t_lstmt true decl s 0 0) &&
   (negb (is_gated g) || is_read s) && remove_hits t s &&
   match s with
   | TGetLen _ y _ _ => mem y decl
-  | TCallLen _ p y _ _ => Z.eqb y p || (mem y decl && fold_agrees td t y)
+  | TCallLen _ p y _ _ => Z.eqb y p || (mem y decl && fold_agrees (fe s) t y)
   | _ => true
   end.
 
@@ -298,14 +315,14 @@ Fixpoint t_setup_ok (t : tenv) (decl : list name) (ss : list gstmt) : bool :=
   | (s, g) :: r =>
       (match s with
        | TDeclLit x _ | TDeclComp x _ => negb (mem x decl) && negb (is_gated g)
-       | _ => t_use_ok [] decl t (s, g) && negb (is_gated g) && negb (is_call_len s)    (* no call in front of the `def` *)
+       | _ => t_use_ok (fun _ => []) decl t (s, g) && negb (is_gated g) && negb (is_call_len s)    (* no call in front of the `def` *)
        end) && t_setup_ok (track1 (is_gated g) t s) (t_decl false decl s) r
   end.
 
-Fixpoint t_body_ok (td t : tenv) (decl : list name) (ss : list gstmt) : bool :=
+Fixpoint t_body_ok (fe : tstmt -> tenv) (t : tenv) (decl : list name) (ss : list gstmt) : bool :=
   match ss with
   | [] => true
-  | (s, g) :: r => t_use_ok td decl t (s, g) && t_body_ok td (track1 (is_gated g) t s) decl r
+  | (s, g) :: r => t_use_ok fe decl t (s, g) && t_body_ok fe (track1 (is_gated g) t s) decl r
   end.
 
 Definition t_compat (t0 t1 : tenv) : bool :=
@@ -319,7 +336,7 @@ Definition t_compat (t0 t1 : tenv) : bool :=
 
 Definition len_ok (setup : list tstmt) (body : list gstmt) : bool :=
   let '(t0, d0) := track false [] [] (ungated setup) in
-  t_setup_ok [] [] (ungated setup) && t_body_ok t0 t0 d0 body && t_compat t0 (fst (track true t0 d0 body)).
+  t_setup_ok [] [] (ungated setup) && t_body_ok (first_env t0 body) t0 d0 body && t_compat t0 (fst (track true t0 d0 body)).
 
 (* ------------------------------------------------------------------ witnesses *)
 Local Open Scope Z_scope.
@@ -354,11 +371,13 @@ Definition len_ok_body : list gstmt :=
              TAppend 0 (TElem 0 0); TGetLen 0 1 true 0; TRemove 0 (TElem 0 (-1)); TGetLen 1 1 true (-2)]
             [None; None; None; Some 1%Z].
 
-(* a = [1, 2, 3];  def h(P): return P[len(a) - 1];  while True: a.remove(c); r = h(a); mon.write(r); a.append(c)   c = 2
-   len(a) inside the function is folded at the `def` (3); at the call the list has 2 elements *)
+(* a = [1, 2, 3];  def h(P): return P[len(a) - 1]
+   while True: r = h(a); mon.write(r); a.remove(c); r = h(a); mon.write(r); a.append(c)   c = 2
+   len(a) inside the function is folded where the function is parsed: at its FIRST call (3); at the second call the
+   list has 2 elements *)
 Definition stale_def_setup : list tstmt := [TDeclLit 0 [1; 2; 3]%Z].
 Definition stale_def_body : list gstmt :=
-  ungated [TRemove 0 (TRt 0); TCallLen 0 5 0 true (-1); TAppend 0 (TRt 0)].
+  ungated [TCallLen 0 5 0 true (-1); TRemove 0 (TRt 0); TCallLen 0 5 0 true (-1); TAppend 0 (TRt 0)].
 
 (* inside the guard: the parameter carries the name of the global list a = [1, 2, 3] and the function is called with
    the shorter list b = [7]: len(P) is the run-time length of the ARGUMENT (1), not the length of a's copy (3) *)
